@@ -428,10 +428,19 @@ def run_history(ctx, h, count=True):
                             v = rt.wait(node.get_best_readable_version())
                             outs.append("ok:%d:%d" % (v._version[3], v._version[4]))
                             if v._version[4] != len(ref):
-                                violation("size of the version after a successful operation differs from the reference",
-                                              dict(h, ops=h["ops"][:i + 1]),
-                                              classify(h, i, fmt, ref_before, unref_at_last) + "-wrong-size",
-                                              {"op": op, "got": v._version[4], "want": len(ref)})
+                                # the recorded length is not what the statement speaks of; a read is: do one now
+                                sig = classify(h, i, fmt, ref_before, unref_at_last)
+                                case = dict(h, ops=h["ops"][:i + 1] + [["read", 0, None, "ver"]])
+                                try:
+                                    mc = MemoryConsumer()
+                                    rt.wait(v.read(mc))
+                                    got = b"".join(mc.chunks)
+                                except Exception as e2:
+                                    violation("read of the whole file after a successful operation fails", case,
+                                              sig + "-unreadable",
+                                              {"op": op, "exc": "%s: %s" % (type(e2).__name__, str(e2)[:200]),
+                                               "recorded_length": v._version[4], "want_length": len(ref)})
+                                check_read(i, got, 0, None)
                         except Exception as e:
                             outs.append("ok:?:" + exc_name(e))
                 except Broken:
